@@ -807,6 +807,8 @@ def invoke(rec, args, kw, spelling):
     if spelling == "numpoly":
         return getattr(numpoly, rec.name)(*args, **kw)
     if spelling == "numpy":
+        if rec.name == "det":
+            return numpy.linalg.det(*args, **kw)
         return getattr(numpy, rec.np_name)(*args, **kw)
     if spelling == "method":
         return getattr(args[0], rec.method)(*args[1:], **kw)
@@ -827,7 +829,7 @@ def spellings_of(rec, args, kw):
     import numpoly
 
     out = ["numpoly"]
-    if rec.np_name:
+    if rec.np_name or rec.name == "det":
         out.append("numpy")
     first_poly = bool(args) and isinstance(args[0], numpoly.ndpoly)
     if rec.method and first_poly:
